@@ -225,6 +225,28 @@ def main():
     cases.append(dict(op="End", builder=BHT, op_row=40, chip_row=20, chip=opbits("Call"), cur_consts={H(4): 0}, next_consts=opbits("End"),
                       what="block hash table: the entry CALL added for the called body",
                       rel4=lambda cur, nxt, q, r: [(nxt(ADDR), r(ADDR))] + [(cur(H(i)), q(H(i))) for i in range(4)]))
+    # block hash table p2, single-child entries: the entry a SPLIT / LOOP / REPEAT / DYN adds for the child it is about to
+    # execute is the entry the END of that child removes (parent id, child hash, is_loop_body flag; the child's END is
+    # followed by the END / REPEAT of the parent, so the is_first_child flag alpha6 is absent on both sides)
+    def child(digest_of_start_row, loop_body):
+        def rel(cur, nxt, q, r):
+            return [(nxt(ADDR), r(ADDR))] + [(cur(H(i)), digest_of_start_row(q, i)) for i in range(4)]
+        return dict(cur_consts={H(4): 1 if loop_body else 0}, rel4=rel)
+    d = child(lambda q, i: q(H(i)), False)
+    cases.append(dict(op="End", builder=BHT, op_row=40, chip_row=20, chip={**opbits("Split"), ST: 1}, next_consts=opbits("End"),
+                      what="block hash table: the entry SPLIT added for the true branch", **d))
+    d = child(lambda q, i: q(H(4 + i)), False)
+    cases.append(dict(op="End", builder=BHT, op_row=40, chip_row=20, chip={**opbits("Split"), ST: 0}, next_consts=opbits("End"),
+                      what="block hash table: the entry SPLIT added for the false branch", **d))
+    d = child(lambda q, i: q(H(i)), True)
+    cases.append(dict(op="End", builder=BHT, op_row=40, chip_row=20, chip={**opbits("Loop"), ST: 1}, next_consts=opbits("Repeat"),
+                      what="block hash table: the entry LOOP added for the loop body", **d))
+    d = child(lambda q, i: q(H(i)), True)
+    cases.append(dict(op="End", builder=BHT, op_row=40, chip_row=20, chip=opbits("Repeat"), next_consts=opbits("End"),
+                      what="block hash table: the entry REPEAT added for the next iteration of the body", **d))
+    d = child(lambda q, i: q(ST + 3 - i), False)
+    cases.append(dict(op="End", builder=BHT, op_row=40, chip_row=20, chip=opbits("Dyn"), next_consts=opbits("End"),
+                      what="block hash table: the entry DYN added for the callee taken from the stack", **d))
     for case in cases:
         opcode = meta.ops[case["op"]]["opcode"]
         op_consts = {int(k): v for k, v in meta.opcode_consts(opcode).items()}
